@@ -157,6 +157,7 @@ func (in *instr) clauses(body *ast.BlockStmt) {
 
 func main() {
 	repo := flag.String("repo", "/repo", "repository root")
+	hooks := flag.String("hooks", "hooks", "directory holding verifsync/ and zz_verif_sync.go (the sync stand-in)")
 	out := flag.String("out", "", "output directory (outside the repository)")
 	flag.Parse()
 	if *out == "" {
@@ -168,6 +169,7 @@ func main() {
 	}
 	in := &instr{fset: token.NewFileSet()}
 	overlay := map[string]string{}
+	syncRewrites := 0
 	for _, pkg := range []struct{ dir, qualifier string }{{"", ""}, {"format", "commonmark."}} {
 		dir := filepath.Join(*repo, pkg.dir)
 		entries, err := os.ReadDir(dir)
@@ -204,6 +206,16 @@ func main() {
 			}
 			f.Comments = keep
 			f.Doc = nil
+			// Package sync is replaced by its scheduler-aware stand-in.
+			for _, im := range f.Imports {
+				if im.Path.Value == `"sync"` {
+					im.Path.Value = `"zombiezen.com/go/commonmark/internal/verifsync"`
+					if im.Name == nil {
+						im.Name = ast.NewIdent("sync")
+					}
+					syncRewrites++
+				}
+			}
 			in.file = filepath.Join(pkg.dir, n)
 			q := pkg.qualifier
 			in.call = func(id int) ast.Stmt {
@@ -238,6 +250,19 @@ func main() {
 			overlay[path] = dst
 		}
 	}
+	absHooks, err := filepath.Abs(*hooks)
+	if err != nil {
+		fatal(err)
+	}
+	for _, m := range [][2]string{
+		{filepath.Join(*repo, "internal", "verifsync", "verifsync.go"), filepath.Join(absHooks, "verifsync", "verifsync.go")},
+		{filepath.Join(*repo, "zz_verif_sync.go"), filepath.Join(absHooks, "zz_verif_sync.go")},
+	} {
+		if _, err := os.Stat(m[1]); err != nil {
+			fatal(err)
+		}
+		overlay[m[0]] = m[1]
+	}
 	ov, _ := json.MarshalIndent(map[string]any{"Replace": overlay}, "", " ")
 	if err := os.WriteFile(filepath.Join(*out, "overlay.json"), ov, 0o644); err != nil {
 		fatal(err)
@@ -246,7 +271,7 @@ func main() {
 	if err := os.WriteFile(filepath.Join(*out, "points.json"), pts, 0o644); err != nil {
 		fatal(err)
 	}
-	fmt.Printf("instr: %d points in %d files\n", len(in.points), len(overlay))
+	fmt.Printf("instr: %d points in %d files, %d imports of sync redirected to the stand-in\n", len(in.points), len(overlay)-2, syncRewrites)
 }
 
 func recvName(e ast.Expr) string {
